@@ -259,6 +259,35 @@ def p3_dispatch(chk, prog):
     chk.require(m >= 32, 'only %d public dispatcher instantiations found' % m)
 
 
+def p4_string_to(chk, prog):
+    """converting the text back: stringTo<T>() for every integral T uses a std::sto* function whose result type
+    covers the whole range of T (the text of every T value can be parsed) and returns its result"""
+    rng = {'stoi': (-(1 << 31), (1 << 31) - 1), 'stol': (-(1 << 63), (1 << 63) - 1),
+           'stoll': (-(1 << 63), (1 << 63) - 1), 'stoul': (0, (1 << 64) - 1), 'stoull': (0, (1 << 64) - 1)}
+    types = {'signed char': (-128, 127), 'char': (-128, 127), 'unsigned char': (0, 255), 'short': (-(1 << 15), (1 << 15) - 1),
+             'unsigned short': (0, (1 << 16) - 1), 'int': (-(1 << 31), (1 << 31) - 1),
+             'unsigned int': (0, (1 << 32) - 1), 'long': (-(1 << 63), (1 << 63) - 1),
+             'unsigned long': (0, (1 << 64) - 1), 'long long': (-(1 << 63), (1 << 63) - 1),
+             'unsigned long long': (0, (1 << 64) - 1)}
+    fs = [f for f in prog.functions if f.name == 'celma::format::stringTo' and f.d.get('ret') in types]
+    chk.require(len(fs) >= 8, 'stringTo<integral> specialisations found: %d' % len(fs))
+    for f in sorted(fs, key=lambda x: x.line):
+        t = f.d['ret']
+        calls = [c for c in f.calls() if (c.get('callee') or '').startswith('std::sto')]
+        rets = [x for x in f.walk() if x.get('k') == 'ReturnStmt']
+        fn = (calls[0]['callee'].split('::')[-1]) if len(calls) == 1 else None
+        direct = len(rets) == 1 and children(rets[0]) and any(x is calls[0] for x in walk(children(rets[0])[0])) \
+            if fn else False
+        lo, hi = types[t]
+        ok = fn in rng and direct and rng[fn][0] <= lo and hi <= rng[fn][1]
+        # an unsigned destination parsed with a signed function of the same width loses the upper half; a signed
+        # destination parsed with an unsigned function accepts its own negative texts (wrap) - the sign must fit too
+        if ok and lo < 0 and rng[fn][0] == 0:
+            ok = False
+        chk.check(ok, 'P4', f.name, 'stringTo<%s>() parses with a function that covers the whole range of the type' % t,
+                  f.loc(), 'uses std::%s (range %s) for values %d..%d' % (fn, rng.get(fn), lo, hi))
+
+
 def run(chk):
     units = units_matching('format/detail/int', 'format/detail/grouped_int') + \
         [os.path.join(VERIF, 'drivers', 'int2string.cpp')]
@@ -288,3 +317,5 @@ def run(chk):
     lens = p1(chk, prog)
     p2p3(chk, prog, lens)
     p3_dispatch(chk, prog)
+    chk.rule('P4', 'the inverse conversion stringTo<T>() can parse the text of every value of T', 8)
+    p4_string_to(chk, prog)
